@@ -93,10 +93,11 @@ def extract(config="lib", repo=None, cache=True):
             with open(done, "w") as f:
                 f.write(str(time.time()))
             _prune(os.path.join(CACHE, "facts"), keep=th)
-    facts = []
-    for p in sorted(glob.glob(os.path.join(out_dir, "*.json"))):
-        with open(p) as f:
-            facts.append(json.load(f))
+        # read under the lock: a concurrent run's prune must not remove this tree's facts before they are loaded
+        facts = []
+        for p in sorted(glob.glob(os.path.join(out_dir, "*.json"))):
+            with open(p) as f:
+                facts.append(json.load(f))
     if not facts:
         raise RuntimeError("no facts produced for config %s" % config)
     return facts, {"tree": th, "config": config, "dir": out_dir}
